@@ -84,6 +84,9 @@ Up(vs) == {VVar(x) : x \in vs} \cup {VDv(d) : d \in {Dv(TRUE, x, FALSE, Zeros(4)
 RepL(k) == IF k = 0 THEN Rep0 ELSE Up(RepL(k - 1))
 Level(k) == IF k = 0 THEN Scal0 \cup Arr0
             ELSE Up(RepL(k - 1)) \cup (IF k = 1 THEN {VDv(d) : d \in DvOver({VFix("Byte", <<7>>), VDt("post")}) \cup DvNoValue} ELSE {})
+                 \* wide (Lvl >= 2): every scalar and every array once more inside a Variant, every array inside a DataValue
+                 \cup (IF k = 1 /\ Lvl >= 2 THEN {VVar(x) : x \in Scal0 \cup Arr0} \cup {VDv(Dv(TRUE, x, FALSE, Zeros(4), NoTs, NoTs)) : x \in Arr0}
+                      ELSE {})
 Variants == UNION {Level(k) : k \in 0..Lvl}
 
 VarReps == Rep0 \cup (IF Lvl >= 1 THEN {VVar(VVar(VFix("Byte", <<7>>))), VVar(VDv(Dv(TRUE, VVar(VEmpty), FALSE, Zeros(4), NoTs, NoTs)))} ELSE {})
